@@ -111,7 +111,7 @@ func c12HistoryFamilies(tier string) []engine.Family {
 		v     interface{}
 	}
 	groups := map[bool][]hv{}
-	want := map[string]bool{"SeedBadRec": true, "SeedHolder": true, "SeedInlineFolderV": true, "SeedInlineFolderP": true, "SeedInlineIfc": true, "SeedInlinePtr": true, "SeedNode": true,
+	want := map[string]bool{"SeedBadRec": true, "SeedBadInline": true, "SeedHolder": true, "SeedInlineFolderV": true, "SeedInlineFolderP": true, "SeedInlineIfc": true, "SeedInlinePtr": true, "SeedNode": true,
 		"SeedNamedFields": true, "SeedTags": true, "SeedCustomHolder": true, "SeedFolderV": true, "SeedRec": true, "SeedWithUnexported": true}
 	var customOpts []gotype.FoldOption
 	for _, s := range seeds() {
